@@ -89,8 +89,87 @@ class RecordingConnection:
         self.sql.append((sql, list(values)))
         return self
 
+    def executemany(self, sql, rows=()):
+        self.sql.append((sql, [list(r) for r in rows]))
+        return self
+
+    def close(self):
+        pass
+
     def fetchall(self):
         return []
+
+
+class _FakeSqlite3:
+    """Stands in for the sqlite3 module inside monkeytype.db.sqlite while the store is being set up."""
+
+    def __init__(self, real):
+        self._real = real
+        self.connections = []
+
+    def connect(self, *a, **k):
+        rc = RecordingConnection()
+        rc.connect_args = (a, k)
+        self.connections.append(rc)
+        return rc
+
+    def __getattr__(self, name):
+        return getattr(self._real, name)
+
+
+def setup_and_write_sql():
+    """Every SQL statement the real store executes when it is created (SQLiteStore.make_store) and when a batch is
+    added (SQLiteStore.add), in order, as ('setup' | 'add', sql)."""
+    import monkeytype.db.sqlite as DB
+    from monkeytype.tracing import CallTrace
+    from vfix import funcs as F
+
+    fake = _FakeSqlite3(DB.sqlite3)
+    saved = DB.sqlite3
+    DB.sqlite3 = fake
+    try:
+        store = SQLiteStore.make_store("verif_c09_never_created.db")
+    finally:
+        DB.sqlite3 = saved
+    if len(fake.connections) != 1:
+        raise ValueError(f"make_store opened {len(fake.connections)} connections")
+    rc = fake.connections[0]
+    out = [("setup", sql) for sql, _v in rc.sql]
+    n = len(rc.sql)
+    store.add([CallTrace(F.mod_func, {"a": int}, int)])
+    out += [("add", sql) for sql, _v in rc.sql[n:]]
+    return out, rc
+
+
+_COLUMNS = ("created_at", "module", "qualname", "arg_types", "return_type", "yield_type")
+
+
+def audit_statements(stmts):
+    """The modelled subset of set-up / write statements.  Anything else (PRAGMA, DROP, DELETE, ATTACH, a CREATE TABLE
+    that is not IF NOT EXISTS, ...) changes atomicity, durability or what survives re-opening in ways the
+    encoding does not model: the check must then answer 'inconclusive', never 'holds'."""
+    import re
+
+    problems = []
+    for phase, sql in stmts:
+        text = " ".join(line for line in (ln.split("--")[0].strip() for ln in sql.splitlines()) if line).rstrip(";").strip()
+        up = text.upper()
+        if phase == "setup":
+            m = re.fullmatch(r"CREATE TABLE IF NOT EXISTS (\w+) \((.*)\)", text, flags=re.I | re.S)
+            if m:
+                cols = [c.strip().split()[0] for c in m.group(2).split(",")]
+                if sorted(cols) != sorted(_COLUMNS):
+                    problems.append(f"table columns {cols}")
+                continue
+            if re.fullmatch(r"CREATE INDEX IF NOT EXISTS \w+ ON \w+ \([\w, ]+\)", text, flags=re.I):
+                continue
+            problems.append(f"store set-up executes {text[:80]!r}")
+        else:
+            if not re.fullmatch(r"INSERT INTO \w+ VALUES \(\?(, ?\?){5}\)", text, flags=re.I):
+                problems.append(f"add() executes {text[:80]!r}")
+            if up.startswith("INSERT OR"):
+                problems.append("conflict clause on insert")
+    return problems
 
 
 def real_sql():
